@@ -39,3 +39,9 @@ package binutils
 //@ func fileNM.SourceLine nosafety
 //@   callsite newAddr2LinerNM after_base: aftercall("Once.Do", true) && f.baseErr == nil && $arg2 == f.base
 //@   callsite addr2LinerNM.addrInfo based: f.baseErr == nil && $arg1 == addr
+// file.ObjAddr: on success the object address is the runtime address minus the base computed by the once-only base
+// computation; a failed base computation is reported and no address is returned
+//@ func file.ObjAddr arith bv nosafety
+//@   atreturn translated: $res1 == nil ==> $res0 == addr - f.base && f.baseErr == nil
+//@   atreturn failed: $res1 != nil ==> $res0 == 0 && $res1 == f.baseErr
+//@   mustcall Once.Do base_first: true when true
